@@ -1,7 +1,8 @@
 // unit int_leh_guess: integer/src/gcd/lehmer.rs lehmer_guess, lehmer_guess_dword (C12): the cofactor matrix guessed from the
 // leading (double) words is unimodular, bounded by SignedWord::MAX and satisfies the Lehmer / Jebelean margins that make the
 // combination (a x - b y, d y - c x) non-negative and <= y for every pair of operands with these leading parts
-// (lib/leh_guess_lemmas.rs: leh_guess_post, lemma_leh_apply).  No trusted stubs.
+// (lib/leh_guess_lemmas.rs: leh_guess_post, lemma_leh_apply) and the EXACT Jebelean condition for both rows (leh_guess_exact: the two
+// results are consecutive Euclid remainders; gcd_ext_in_place needs it).  No trusted stubs.
 #![allow(unused_imports, unused_variables, dead_code, non_snake_case, unused_mut, unused_parens, unused_braces)]
 use vstd::prelude::*;
 verus! {
